@@ -21,7 +21,7 @@ COMMON_NOTE = (
 claim(
     "C03",
     "Lean 4 proof (Finset-sum / bit-level induction) of the loop nest = U⊗I matrix-vector product; exact differential correspondence with the real emulator",
-    "Theorems C03_applyGate_eq_embed, C03_state(_vec/_GD), C03_idle, C03_identity, C03_embed_comm, C03_interleave prove, for every register size, every gate matrix over any commutative semiring, every ordered tuple of distinct qubits and every gate list, that the emulator's bit-twiddling loop nest computes the little-endian embedded matrix product in execution order, that gates without unitary are no-ops and that any interleaving of parallel branches on disjoint qubits gives the same state. C03_embed_unitary / C03_applyGate_norm / C03_norm_preserved (Props/C03Unitary.lean, any commutative star ring): embedding a unitary gate matrix on any ordered tuple of distinct qubits gives a unitary on the register, the loop nest preserves the norm, and the state computed from unitary gates has norm one — hence (C15_probabilities, over ℂ; C15_probabilities_GD for the executable Gaussian-dyadic program) the outcome probabilities are non-negative and sum to one before any renormalisation. The executable model is tied to /repo by exact (Gaussian-dyadic) state-vector comparison on generated programs run through the real emulator, plus direct oracles (numpy kron reference, alias-vs-direct, idle no-op, branch order, let override).",
+    "Theorems C03_applyGate_eq_embed, C03_state(_vec/_GD), C03_idle, C03_identity, C03_embed_comm, C03_interleave prove, for every register size, every gate matrix over any commutative semiring, every ordered tuple of distinct qubits and every gate list, that the emulator's bit-twiddling loop nest computes the little-endian embedded matrix product in execution order, that gates without unitary are no-ops and that any interleaving of parallel branches on disjoint qubits gives the same state. Over the WHOLE RUN (Props/C03Run.lean, Lemmas/RunMeaning.lean): C03_run_total proves with no hypothesis that whenever runModel cfg ov txt returns a summary, the source program (subcircuit blocks spelled out) has a gate-level meaning under the overrides (Spec/Sem.lean: lets and overrides applied, macros expanded by substitution, every qubit resolved through its alias chain) and the summary — per subcircuit the serialised gates with their resolved qubits and numbers, the visit sequence, the subcircuit count — is exactly specSummary of that meaning tree, a function of the specification alone; C03_run_table / C03_run_args (every qubit and number the emulator uses is the specification's), C03_run_shape (the walker skeleton unrolls to the meaning's unrolled gate applications), C03_run_traces / C03_run_summary, C03_run_meaning(_raw/_source), C03_run_text are the steps. Together with C03_state this is the property's sentence end to end: the gates multiplied for a subcircuit are the unrolled meaning of the program. C03_embed_unitary / C03_applyGate_norm / C03_norm_preserved (Props/C03Unitary.lean, any commutative star ring): embedding a unitary gate matrix on any ordered tuple of distinct qubits gives a unitary on the register, the loop nest preserves the norm, and the state computed from unitary gates has norm one — hence (C15_probabilities, over ℂ; C15_probabilities_GD for the executable Gaussian-dyadic program) the outcome probabilities are non-negative and sum to one before any renormalisation. The executable model is tied to /repo by exact (Gaussian-dyadic) state-vector comparison on generated programs run through the real emulator, plus direct oracles (numpy kron reference, alias-vs-direct, idle no-op, branch order, let override).",
     COMMON_NOTE + "Modelled, not verified: the Python loop nest is transcribed by hand; IEEE rounding for non-dyadic matrices is outside the model; trace serialisation and the passes are covered by C08/C12 and C04–C06/C09.",
     "DESIGN.md §7 C03",
 )
@@ -35,7 +35,7 @@ claim(
 claim(
     "C19",
     "Lean 4 proof (structural induction over block trees) of schedule preservation; differential correspondence with normalize_blocks_with_unitary_timing",
-    "Theorems C19_schedule, C19_schedule_order, C19_nodup, C19_duration, C19_flat, C19_frame(_slots), C19_ok_iff, C19_loop, C19_idempotent prove for every alternating nesting (any depth, unequal lengths, empty blocks, subcircuit blocks) that every gate instance keeps its time step (per-step order included), none is lost or duplicated, the result is flat, subcircuit annotations keep iteration count, start and duration, and that normalisation fails exactly for a loop (JaqalError) or subcircuit (assertion; unreachable through parser/builder) inside a parallel block.",
+    "On the REAL IR (Model/UnitTimingCircuit.lean: normalizeCircuit on circuits with Val arguments and counts, header copying and constructor re-checks included; Props/C19Circuit.lean): C19_circuit_refines(_error) / C19_circuit_complete_* (the circuit-level pass refines the skeletal one for every labelling of gate statements, so every theorem below transfers: C19_circuit_schedule(_order/_count), C19_circuit_duration, C19_circuit_flat, C19_circuit_subcircuits, C19_circuit_ok_iff, C19_circuit_loop, C19_circuit_idempotent), C19_circuit_header / C19_circuit_frame (constants, registers, macros, native gates, pulse imports unchanged; the gate statements of the result are a permutation of the input's, verbatim), C19_circuit_meaning (for every override environment the unrolled gate applications of the result's meaning are a permutation of the input's). Theorems C19_schedule, C19_schedule_order, C19_nodup, C19_duration, C19_flat, C19_frame(_slots), C19_ok_iff, C19_loop, C19_idempotent prove for every alternating nesting (any depth, unequal lengths, empty blocks, subcircuit blocks) that every gate instance keeps its time step (per-step order included), none is lost or duplicated, the result is flat, subcircuit annotations keep iteration count, start and duration, and that normalisation fails exactly for a loop (JaqalError) or subcircuit (assertion; unreachable through parser/builder) inside a parallel block.",
     COMMON_NOTE + "Gate statements are abstracted to opaque identities; macro bodies are not normalised by the pass and are outside the theorem.",
     "DESIGN.md §7 C19",
 )
